@@ -13,6 +13,7 @@ from vlib import mapprog as mp
 from vlib.core import Campaign, Outcome, digest
 
 PID = "C05"
+EVALUATIONS_ARE_UNITS = True  # one evaluation = one executed crash point (kill / torn write / raise)
 LEVEL = "fault_enumeration"
 RULE = (
     "For a fixed family of small pipelines (map -> element-wise -> reduction -> plain function; tuple output; "
